@@ -678,6 +678,8 @@ fn run_actlisten(ctx: &Ctx, l: &[Sx]) -> Sx {
         }
         let child = cmd.spawn().expect("spawn helper");
         let mut guard = ChildGuard::new(child);
+        // the client comes when the service is already waiting in accept()
+        std::thread::sleep(Duration::from_millis(300));
         let r = over_address(&format!("unix:{}", path), vec![req.clone()]);
         if idle > 0 && rounds > 1 {
             // let the service end by itself: its listener is dropped, the socket must survive
